@@ -1871,14 +1871,20 @@ class NoteRestToken(ComplexToken):
         # Build agnostic pitch (if requested and applicable)
         agnostic_pitch_representation = None
         if convert_pitch_to_agnostic_fn is not None:
-            only_pitches_and_alterations = [
+            only_pitches = [
                 s for s in pitch_duration_tokens_sorted
-                if s.category in {TokenCategory.PITCH, TokenCategory.ALTERATION}
+                if s.category == TokenCategory.PITCH
             ]
-            if only_pitches_and_alterations:
+            only_alterations = [
+                s for s in pitch_duration_tokens_sorted
+                if s.category == TokenCategory.ALTERATION
+            ]
+            if only_pitches:
+                # Only the staff position is agnostic: the alteration (natural sign and display marks included)
+                # is carried over unchanged.
                 agnostic_pitch_representation = convert_pitch_to_agnostic_fn(
-                    "".join(s.encoding for s in only_pitches_and_alterations)
-                )
+                    "".join(s.encoding for s in only_pitches)
+                ) + "".join(s.encoding for s in only_alterations)
 
         if agnostic_pitch_representation is not None:
             # When agnostic, add the duration part explicitly, then the agnostic pitch
